@@ -62,6 +62,10 @@ type Term struct {
 	name    string
 	args    []*Term // OApp
 	id      int32   // >0 for interned non-constant terms
+	sv      *Term   // the single 8-bit variable this term depends on, if svState==2
+	svState uint8   // 1: no variables, 2: exactly one 8-bit variable (sv), 3: other
+	vs      []*Term // variables occurring in the term (lazily computed)
+	vsDone  bool
 }
 
 func (t *Term) IsConst() bool { return t.op == OConst }
@@ -196,6 +200,7 @@ func (tt *TermTable) intern(t *Term) *Term {
 	}
 	t.id = tt.nextID
 	tt.nextID++
+	t.computeSV()
 	tt.m[k] = t
 	tt.byID = append(tt.byID, t)
 	if t.op == OApp {
@@ -834,4 +839,97 @@ func (t *Term) Eval(env map[string]*big.Int, uf func(name string, args []*big.In
 	}
 	memo[t] = r
 	return r
+}
+
+// computeSV records whether the term depends on exactly one 8-bit variable
+// (and only on sub-terms of width <= 64), which makes it decidable by
+// enumeration of that variable's 256 values.
+func (t *Term) computeSV() {
+	if t.w > 64 {
+		t.svState = 3
+		return
+	}
+	switch t.op {
+	case OVar:
+		if t.w == 8 {
+			t.sv, t.svState = t, 2
+		} else {
+			t.svState = 3
+		}
+		return
+	case OApp:
+		t.svState = 3
+		return
+	}
+	st := uint8(1)
+	var v *Term
+	for _, c := range []*Term{t.a, t.b, t.d} {
+		if c == nil || c.op == OConst {
+			if c != nil && c.w > 64 {
+				t.svState = 3
+				return
+			}
+			continue
+		}
+		switch c.svState {
+		case 3, 0:
+			t.svState = 3
+			return
+		case 2:
+			if v != nil && v != c.sv {
+				t.svState = 3
+				return
+			}
+			v = c.sv
+			st = 2
+		}
+	}
+	t.sv, t.svState = v, st
+}
+
+// Vars returns the variables occurring in t (memoised; sorted by id).
+func (t *Term) Vars() []*Term {
+	if t.op == OConst {
+		return nil
+	}
+	if t.vsDone {
+		return t.vs
+	}
+	if t.op == OVar {
+		t.vs, t.vsDone = []*Term{t}, true
+		return t.vs
+	}
+	var acc []*Term
+	for _, c := range t.children() {
+		cv := c.Vars()
+		if len(cv) == 0 {
+			continue
+		}
+		if acc == nil {
+			acc = cv
+			continue
+		}
+		// merge two sorted lists
+		m := make([]*Term, 0, len(acc)+len(cv))
+		i, j := 0, 0
+		for i < len(acc) && j < len(cv) {
+			switch {
+			case acc[i].id == cv[j].id:
+				m = append(m, acc[i])
+				i++
+				j++
+			case acc[i].id < cv[j].id:
+				m = append(m, acc[i])
+				i++
+			default:
+				m = append(m, cv[j])
+				j++
+			}
+		}
+		m = append(m, acc[i:]...)
+		m = append(m, cv[j:]...)
+		acc = m
+	}
+	t.vs, t.vsDone = acc, true
+	return acc
 }
